@@ -1,0 +1,79 @@
+//go:build verif
+
+package memfs
+
+// Contracts for the deductive verifier in /verif (govc): the per-call outcome tables of C01 for
+// MemFS, written from the Linux manual pages (and from Go's os package where it adds a rule of its
+// own) over the classification returned by the path walk:
+//   found         err == vfs.err.FileExists
+//   missing-last  child == nil, err is "no such file or directory", the cursor is on the last part
+//   anything else the walk's own error (a missing or non-directory intermediate component, a loop)
+// Comments only; compiled only with the build tag "verif".
+
+//@ pred perr(e error, inner error) := e != nil && e is *fs.PathError && e.(*fs.PathError).Err == inner
+//@ pred lerr(e error, inner error) := e != nil && e is *os.LinkError && e.(*os.LinkError).Err == inner
+//@ pred walkLast(pi *avfs.PathIterator[*MemFS]) := pi.end == len(pi.path)
+
+// stat(2), lstat(2): the walk decides.
+//@ func (*MemFS).Stat
+//@   ensures[C01] result(vfs.searchNode, 3) != vfs.err.FileExists ==> r0 == nil && perr(r1, result(vfs.searchNode, 3))
+//@   ensures[C01] result(vfs.searchNode, 3) == vfs.err.FileExists ==> r1 == nil && r0 != nil
+//@ func (*MemFS).Lstat
+//@   ensures[C01] result(vfs.searchNode, 3) != vfs.err.FileExists ==> r0 == nil && perr(r1, result(vfs.searchNode, 3))
+//@   ensures[C01] result(vfs.searchNode, 3) == vfs.err.FileExists ==> r1 == nil && r0 != nil
+
+// readlink(2): EINVAL when the name is not a symbolic link.
+//@ func (*MemFS).Readlink
+//@   ensures[C01] result(vfs.searchNode, 3) != vfs.err.FileExists ==> r0 == "" && perr(r1, result(vfs.searchNode, 3))
+//@   ensures[C01] result(vfs.searchNode, 3) == vfs.err.FileExists && !(result(vfs.searchNode, 1) is *symlinkNode) && vfs.osType != avfs.OsWindows ==> perr(r1, avfs.ErrInvalidArgument)
+
+// chdir(2): ENOTDIR when the name is not a directory; the working directory becomes the resolved path.
+//@ func (*MemFS).Chdir
+//@   ensures[C01] result(vfs.searchNode, 3) != vfs.err.FileExists ==> perr(r0, result(vfs.searchNode, 3)) && vfs.curDir == old(vfs.curDir)
+//@   ensures[C01] result(vfs.searchNode, 3) == vfs.err.FileExists && !(result(vfs.searchNode, 1) is *dirNode) && vfs.osType != avfs.OsWindows ==> perr(r0, vfs.err.NotADirectory) && vfs.curDir == old(vfs.curDir)
+//@   ensures[C01] r0 == nil ==> vfs.curDir == result(vfs.searchNode, 2).path
+
+// chmod(2), chtimes: the walk decides; EPERM when the caller may not change the node.
+//@ func (*MemFS).Chmod
+//@   ensures[C01] result(vfs.searchNode, 3) != vfs.err.FileExists ==> perr(r0, result(vfs.searchNode, 3))
+//@   ensures[C01] r0 != nil && result(vfs.searchNode, 3) == vfs.err.FileExists ==> perr(r0, vfs.err.OpNotPermitted)
+//@ func (*MemFS).Chtimes
+//@   ensures[C01] result(vfs.searchNode, 3) != vfs.err.FileExists ==> perr(r0, result(vfs.searchNode, 3))
+//@   ensures[C01] r0 != nil && result(vfs.searchNode, 3) == vfs.err.FileExists ==> perr(r0, vfs.err.OpNotPermitted)
+
+// truncate(2): EISDIR for a directory, EINVAL for a negative size.
+//@ func (*MemFS).Truncate
+//@   ensures[C01] result(vfs.searchNode, 3) != vfs.err.FileExists ==> perr(r0, result(vfs.searchNode, 3))
+//@   ensures[C01] result(vfs.searchNode, 3) == vfs.err.FileExists && !(result(vfs.searchNode, 1) is *fileNode) ==> perr(r0, vfs.err.IsADirectory)
+//@   ensures[C01] result(vfs.searchNode, 3) == vfs.err.FileExists && result(vfs.searchNode, 1) is *fileNode && size < 0 ==> perr(r0, vfs.err.InvalidArgument)
+
+// mkdir(2): ENOENT for an empty name, EEXIST when the name exists, the walk's error when an
+// intermediate component is missing or is not a directory, EACCES without write permission.
+//@ func (*MemFS).Mkdir
+//@   ensures[C01] name == "" ==> perr(r0, vfs.err.NoSuchDir)
+//@   ensures[C01] name != "" && result(vfs.searchNode, 3) == vfs.err.FileExists ==> perr(r0, vfs.err.FileExists)
+//@   ensures[C01] name != "" && !(result(vfs.searchNode, 1) == nil && walkLast(result(vfs.searchNode, 2))) ==> perr(r0, result(vfs.searchNode, 3))
+//@   ensures[C01] r0 == nil ==> result(vfs.searchNode, 1) == nil && walkLast(result(vfs.searchNode, 2))
+//@   ensures[C01] name != "" && result(vfs.searchNode, 1) == nil && walkLast(result(vfs.searchNode, 2)) && r0 != nil ==> perr(r0, vfs.err.PermDenied) || perr(r0, vfs.err.FileExists)
+
+// symlink(2), link(2): the new name must be missing in an existing directory.
+//@ func (*MemFS).Symlink
+//@   ensures[C01] result(vfs.searchNode, 3) == vfs.err.FileExists ==> lerr(r0, vfs.err.FileExists)
+//@   ensures[C01] r0 == nil ==> result(vfs.searchNode, 1) == nil && walkLast(result(vfs.searchNode, 2))
+//@   ensures[C01] !(result(vfs.searchNode, 1) == nil && walkLast(result(vfs.searchNode, 2))) ==> lerr(r0, result(vfs.searchNode, 3))
+//@ func (*MemFS).Link
+//@   ensures[C01] result("vfs.searchNode#0", 3) != vfs.err.FileExists ==> lerr(r0, result("vfs.searchNode#0", 3))
+//@   ensures[C01] r0 == nil ==> ncalls(vfs.searchNode) == 2 && result("vfs.searchNode#1", 1) == nil && walkLast(result("vfs.searchNode#1", 2))
+//@   ensures[C01] r0 == nil ==> result("vfs.searchNode#0", 1) is *fileNode
+
+// unlink(2), rmdir(2) through os.Remove: the walk decides; ENOTEMPTY for a directory with entries.
+//@ func (*MemFS).Remove
+//@   ensures[C01] result(vfs.searchNode, 3) != vfs.err.FileExists ==> perr(r0, result(vfs.searchNode, 3))
+//@   ensures[C01] r0 == nil ==> result(vfs.searchNode, 3) == vfs.err.FileExists
+
+// rename(2) with the rules of os.Rename: the source must exist; the destination directory must
+// exist; a directory is never replaced (EEXIST, Go's rule) and never replaces a file (ENOTDIR).
+//@ func (*MemFS).Rename
+//@   ensures[C01] result("vfs.searchNode#0", 3) != vfs.err.FileExists ==> lerr(r0, result("vfs.searchNode#0", 3))
+//@   ensures[C01] r0 == nil && ncalls(vfs.searchNode) == 2 ==> result("vfs.searchNode#1", 3) == vfs.err.FileExists || (result("vfs.searchNode#1", 1) == nil && walkLast(result("vfs.searchNode#1", 2)))
+//@   ensures[C01] ncalls(vfs.searchNode) == 2 && result("vfs.searchNode#0", 1) is *dirNode && result("vfs.searchNode#1", 3) == vfs.err.FileExists && result("vfs.searchNode#1", 1) is *fileNode && vfs.osType != avfs.OsWindows && old(oldpath) != old(newpath) ==> r0 == nil || lerr(r0, vfs.err.NotADirectory) || lerr(r0, vfs.err.PermDenied) || lerr(r0, vfs.err.InvalidArgument)
